@@ -183,7 +183,7 @@ def T08():
                 depends=["ALT || C1A"],
                 children=[Cfg("U1", B, "u1"), Cfg("U2", B, "u2")],
             ),
-            Choice("C3", "c3", prompt_if="EN", defaults=[("C3B", None)], children=[Cfg("C3A", B, "c3a"), Cfg("C3B", B, "c3b")]),
+            Choice("C3", "c3", prompt_if="EN", defaults=[("C3B", None)], children=[Cfg("C3A", B, "c3a"), Cfg("C3A_DMA", B, "c3a dma", depends=["C3A"]), Cfg("C3B", B, "c3b"), Cfg("C3B_SPEED", I, "c3b speed", depends=["C3B"], defaults=[("10", None)])]),
         ],
     )
 
